@@ -94,6 +94,8 @@ type Step struct {
 	Note string      `json:"note,omitempty"`
 	// HomeRel: see sim.Ctx
 	HomeRel string `json:"home_rel,omitempty"`
+	// Stdout: see sim.Ctx
+	Stdout string `json:"stdout,omitempty"`
 }
 
 type StepResult struct {
@@ -162,7 +164,7 @@ func ExecSteps(env *sim.Env, root string, steps []Step, st *Stats) []StepResult 
 				break
 			}
 			r.Pre = pre
-			c := sim.Ctx{Binary: s.Bin, Args: s.Inv.Args(), Cwd: s.Inv.Cwd, Env: append([]string(nil), s.Env...), GoMaxProcs: s.GMP, Plan: s.Plan, HomeRel: s.HomeRel}
+			c := sim.Ctx{Binary: s.Bin, Args: s.Inv.Args(), Cwd: s.Inv.Cwd, Env: append([]string(nil), s.Env...), GoMaxProcs: s.GMP, Plan: s.Plan, HomeRel: s.HomeRel, Stdout: s.Stdout}
 
 			if c.Binary == "" {
 				c.Binary = "plain"
